@@ -6,4 +6,4 @@ import (
 	"verif/internal/harness"
 )
 
-func TestProps(t *testing.T) { harness.Main(t, "C12", Client, Session, Decoder) }
+func TestProps(t *testing.T) { harness.Main(t, "C12", Client, Session, Shards, Decoder) }
